@@ -91,7 +91,7 @@ impl Prop for C08 {
                 if den >= 1e-3 * sc.tot_weighted && den > 0.0 {
                     let rt = ratio_tol(tol(sc.tot_weighted, sc.n), den);
                     for (name, x, y) in [("rer", a.rer, b.rer), ("rer_nrb", a.rer_nrb, b.rer_nrb), ("rer_onst", a.rer_onst, b.rer_onst)] {
-                        ensure!(((x - y).abs() as f64) <= rt, "same_result", "{}: {} with the full set, {} with the stripped set", name, x, y);
+                        ensure!(((x - y).abs() as f64) <= rt * (1.0 + x.abs().max(y.abs()) as f64), "same_result", "{}: {} with the full set, {} with the stripped set", name, x, y);
                     }
                 } else {
                     ctx.skip("ratio_den_noise");
